@@ -132,9 +132,11 @@ Fixpoint explore (rounds : list (list item)) (cur : list (option (st * list out)
     explore rest next
   end.
 
+Definition allowed_from (s0 : st) (rounds : list (list item)) : list (option (st * obs)) :=
+  map (fun x => match x with Some (s, o) => Some (s, observe c s o) | None => None end)
+      (explore rounds [Some (s0, [])]).
 Definition allowed (rounds : list (list item)) : list (option obs) :=
-  map (fun x => match x with Some (s, o) => Some (observe c s o) | None => None end)
-      (explore rounds [Some (init_st 0, [])]).
+  map (fun x => match x with Some (_, o) => Some o | None => None end) (allowed_from (init_st 0) rounds).
 
 End Explore.
 
@@ -151,6 +153,24 @@ Fixpoint mismatches_from {X} (ok : X -> bool) (i : nat) (l : list X) : list nat 
   | x :: l' => if ok x then mismatches_from ok (S i) l' else i :: mismatches_from ok (S i) l'
   end.
 Definition proxy_mismatches (src : srcp) (l : list pcase) : list nat := mismatches_from (case_ok src) 0 l.
+
+(* two requests served one after the other by the same pooled filter-chain object: the second starts from [next_request] of a
+   final state of the first that matches the first's observation (or, the pool being free to hand out another object, from a
+   fresh state) *)
+Record paircase := { pp_first : pcase; pp_second : pcase }.
+Definition pair_ok (src : srcp) (k : paircase) : bool :=
+  let a := pp_first k in let b := pp_second k in
+  let al := allowed_from src (pc_cfg a) (init_st 0) (pc_rounds a) in
+  forallb (fun x => match x with Some _ => true | None => false end) al &&
+  existsb (fun x => match x with
+                    | Some (sa, oa) =>
+                      obs_eqb oa (pc_obs a) &&
+                      (let starts := [next_request src sa 0; init_st 0] in
+                       existsb (fun s0 => existsb (fun y => match y with Some (_, ob) => obs_eqb ob (pc_obs b) | None => false end)
+                                                  (allowed_from src (pc_cfg b) s0 (pc_rounds b))) starts)
+                    | None => false
+                    end) al.
+Definition pair_mismatches (src : srcp) (l : list paircase) : list nat := mismatches_from (pair_ok src) 0 l.
 
 (* for debugging a mismatch: what the model allows *)
 Definition show_allowed (src : srcp) (k : pcase) := allowed src (pc_cfg k) (pc_rounds k).
